@@ -235,7 +235,8 @@ class E2E(Harness):
                 pd = getattr(y, "partial_data", None)
                 obs_y.append({"i": i, "kind": "error", "items": impl_items(pd) if pd is not None else None, "etype": type(y).__name__})
             else:
-                obs_y.append({"i": i, "kind": "packet", "items": impl_items(y), "pos": y.raw_data.pos})
+                obs_y.append({"i": i, "kind": "packet", "items": impl_items(y), "pos": y.raw_data.pos, "header": list(y.header.keys()),
+                              "user_data": list(y.user_data.keys())})
         observe = {"yields": obs_y, "end": end, "warnings": n_warn, "cls": "ran"}
         spec = {"yields": spec_y, "end": spec_end}
         cls = ",".join(y["kind"] for y in spec_y) + ("|" + spec_end if spec_end != "stop" else "")
@@ -377,7 +378,8 @@ def run_real(xml, stream, parse_bad, yield_unrec, limit):
         if isinstance(y, Exception):
             out.append({"i": i, "kind": "error", "items": items_of(pkt) if pkt is not None else None, "etype": type(y).__name__})
         else:
-            out.append({"i": i, "kind": "packet", "items": items_of(y), "pos": y.raw_data.pos})
+            out.append({"i": i, "kind": "packet", "items": items_of(y), "pos": y.raw_data.pos, "header": list(y.header.keys()),
+                        "user_data": list(y.user_data.keys())})
     nw = sum(1 for w in rec if str(w.message).startswith(LEN_WARN))
     return {"cls": "ran", "yields": out, "end": end, "warnings": nw, "definition_changed": structural.definition_snapshot(d) != snap0}
 
@@ -432,6 +434,9 @@ def judge(req, got):
                 return "reproduced", f"{head}: {d}"
             if mine["pos"] != sy["pos"]:
                 return "reproduced", f"{head}: packet {i} cursor {mine['pos']} != sum of widths {sy['pos']}"
+            names = [e[0] for e in sy["items"]]
+            if mine.get("header") != names[:7] or mine.get("user_data") != names[7:]:
+                return "reproduced", f"{head}: packet {i} header view {mine.get('header')} / user-data view {mine.get('user_data')} are not the first seven items / the rest of {names}"
             k += 1
         elif kind == "error":
             if mine is None or mine["kind"] != "error" or mine.get("etype") != "UnrecognizedPacketTypeError":
